@@ -113,10 +113,12 @@ Record wgraph := mkwg { w_nids : arr; w_eids : arr; w_nprops : option props; w_e
 (* float16 is upcast to float32 (value preserving: the payload encoding is unchanged) *)
 Definition upcast_arr (a : arr) : arr :=
   if dtype_eqb (a_dt a) DF16 then mkarr DF32 (a_shape a) (a_flat a) else a.
+Definition upcast_varr (e : varr) : varr :=
+  if dtype_eqb (v_dt e) DF16 then Build_varr DF32 (v_shape e) (v_flat e) else e.
 Definition upcast_prop (p : prop) : prop :=
   match p_vals p with
   | PFixed a => mkprop (PFixed (upcast_arr a)) (p_missing p)
-  | PVlen _ => p
+  | PVlen l => mkprop (PVlen (map upcast_varr l)) (p_missing p)     (* every element of a var-length property is upcast too *)
   end.
 
 (* create_props_metadata: dtype and varlength of a property (after the float16 upcast) *)
